@@ -211,6 +211,34 @@ def _reverse_arg(call: ast.Call):
     return None
 
 
+def _sort_headers_concrete(prj, sh):
+    """{reverse: (positions in the order sort_headers returns them, required order)} on headers built through the repo's classes,
+    or None when that is not evaluable"""
+    from ..absint import MiniInterp, PyRaise, Unknown, make_token
+    try:
+        H = prj.cls("codelimit.common.scope.Header:Header")
+        TR = prj.cls("codelimit.common.TokenRange:TokenRange")
+        pos = [(3, 1), (1, 9), (1, 2), (2, 5), (3, 7), (2, 1), (10, 1), (9, 30)]
+        out = {}
+        for rv in (False, True):
+            it = MiniInterp(prj, max_steps=200000)
+            tokens = [make_token(it, prj, "Name", f"n{i}", ln, col) for i, (ln, col) in enumerate(pos)]
+            hs = [it.construct(H, [tokens[i], it.construct(TR, [i, i + 1], {}, None, sh)], {}, None, sh) for i in range(len(pos))]
+            kwargs = {"reverse": rv} if "reverse" in sh.params() else {}
+            if rv and not kwargs:
+                return None
+            r = it.call(sh, [hs, tokens], kwargs)
+            r = r.rest() if hasattr(r, "rest") else r
+            got = []
+            for h in r:
+                tr = it.getattr(h, "token_range", sh, None)
+                got.append(pos[tr.fields.get("start")])
+            out[rv] = (got, sorted(pos, reverse=rv))
+        return out
+    except (Unknown, PyRaise, AnalysisError, AttributeError, KeyError, TypeError):
+        return None
+
+
 def rule_R2(ctx, prj, typestate=True):
     ctx.rule("R2", "measurements come out in source order: sort_headers orders by the (line, column) pair of the header's "
                    "first token in the direction of its reverse parameter (key evaluated symbolically); the order "
@@ -220,12 +248,30 @@ def rule_R2(ctx, prj, typestate=True):
     sh = prj.func("codelimit.common.scope.Header:sort_headers")
     dirs = {}
     bad = False
+    concrete = _sort_headers_concrete(prj, sh)
     for rv in (False, True):
-        m = sort_direction(prj, sh, rv, "token_range.start")
-        if m.wrong:
-            ctx.viol("R2", "sort_headers/key", m.site or sh.site(), f"sort_headers: {m.wrong}")
-            bad = True
-            break
+        try:
+            m = sort_direction(prj, sh, rv, "token_range.start")
+        except AnalysisError:
+            m = None
+        if m is None or m.wrong:
+            # the symbolic reading of the key is a shortcut; what decides is sort_headers evaluated on headers built through the repo's
+            # own classes, whose first tokens lie at scrambled positions (ties on the line, on the column)
+            if concrete is None:
+                if m is None:
+                    raise AnalysisError(f"{sh.disp}: the sort could be evaluated neither symbolically nor on concrete headers")
+                ctx.viol("R2", "sort_headers/key", m.site or sh.site(), f"sort_headers: {m.wrong}")
+                bad = True
+                break
+            got, want = concrete[rv]
+            if got != want:
+                ctx.viol("R2", "sort_headers/key" if sorted(got) == sorted(want) and got != want[::-1] else "sort_headers/direction", sh.site(),
+                         f"sort_headers(reverse={rv}) orders headers whose first tokens lie at {want if not rv else want[::-1]} (in source order) as {got}; "
+                         f"required {'descending' if rv else 'ascending'} (line, column)")
+                bad = True
+                break
+            dirs[rv] = rv
+            continue
         dirs[rv] = m.descending
     if not bad:
         if dirs == {False: False, True: True}:
